@@ -168,9 +168,19 @@ func runHistory(ops []cliOp) (problems []string, canon string, applicable bool) 
 				return nil, "", false
 			}
 			w.write(wk)
+		case "start_two_applied":
+			// shortcut for [add, add, apply] from the empty world (keeps gap histories within the depth bound).
+			if len(vs) != 0 {
+				return nil, "", false
+			}
+			w.files["2"], w.files["4"] = &fileState{}, &fileState{}
+			w.write(wk)
+			if res := wk.Run(nil, "migrate", "apply", "--dir", dirURL, "--url", dbURL, "--tx-mode", "none", "--lock-timeout", "1ms"); res.Exit != 0 {
+				return []string{"harness: start_two_applied: " + res.String()}, "", true
+			}
 		case "add_ooo":
 			v := strconv.Itoa(max - 1)
-			if max < 4 || w.files[v] != nil {
+			if max < 2 || w.files[v] != nil {
 				return nil, "", false
 			}
 			w.files[v] = &fileState{}
@@ -394,8 +404,8 @@ func status(wk *clih.Work, dirURL, dbURL string) statusOut {
 }
 
 func cliAlphabet() []cliOp {
-	return []cliOp{{Kind: "add"}, {Kind: "add_bad"}, {Kind: "add_ck"}, {Kind: "add_ooo"}, {Kind: "apply"}, {Kind: "apply1"}, {Kind: "apply_nonlinear"}, {Kind: "apply_skip"},
-		{Kind: "set", V: "2"}, {Kind: "set", V: "4"}, {Kind: "fix"}, {Kind: "remove_newest"}}
+	return []cliOp{{Kind: "start_two_applied"}, {Kind: "add"}, {Kind: "add_bad"}, {Kind: "add_ck"}, {Kind: "add_ooo"}, {Kind: "apply"}, {Kind: "apply1"}, {Kind: "apply_nonlinear"}, {Kind: "apply_skip"},
+		{Kind: "set", V: "1"}, {Kind: "set", V: "2"}, {Kind: "set", V: "3"}, {Kind: "set", V: "4"}, {Kind: "fix"}, {Kind: "remove_newest"}}
 }
 
 // RunCLI is the BFS over CLI histories; returns states, transitions.
